@@ -1,6 +1,6 @@
 (* model-side driver for C10: line protocol, one case per line (fields separated by TAB)
      seq    <cap> <ops>                      single-goroutine history: s<v> | r | i | c | k | m  (comma separated)
-                                             i = one range step (Take), k = keys(ch), m = map(ch) (Next/Entry protocol to the end)
+                                             i = one range step (Take; Fin), k = keys(ch), m = map(ch) (Take; Fin to the end)
      accept <progs> <logs>                   observed per-receiver logs against the acceptor
      reach  <cap> <progs> <kinds>            all outcomes of the fixed protocol (senders, closer, receivers)
                                              kinds: r = receive loop, i = range loop (Take), p = Next/Entry protocol loop
@@ -79,14 +79,13 @@ let do_seq cap ops =
              | Some e -> out := ev_str e :: !out
              | None -> ())
          | 'k' | 'm' ->
-           (* keys(ch) / map(ch): Next, Store, Count, Entry until Next reports the end *)
+           (* keys(ch) / map(ch): Take; Fin (object.IterNextEntry) until Take reports the end *)
            let acc = ref [] in
            let fin = ref false in
            while not !fin && not !blocked do
-             match stepa (Next O) with
-             | Some (EvNext _) ->
-               ignore (stepa (Store O)); ignore (stepa (Count O));
-               (match stepa (Entry O) with
+             match stepa (Take O) with
+             | Some (EvTaken _) ->
+               (match stepa (Fin O) with
                 | Some (EvEntry (_, k, (_, v))) ->
                   acc := (if o.[0] = 'k' then string_of_int (int_of_nat k)
                           else Printf.sprintf "%d=%d" (int_of_nat k) (int_of_n v)) :: !acc
